@@ -779,8 +779,10 @@ class SourceHandler:
                 return
             self._params.positive_ack_params.ack_timer.reset()
             self._params.positive_ack_params.ack_counter += 1
+            # The EOF PDU is sent again as it was sent first: its checksum covers the file copy
+            # progress, which is less than the file size for an EOF (cancel) PDU.
             self._prepare_eof_pdu(
-                self._checksum_calculation(self._params.fp.file_size),
+                self._checksum_calculation(self._params.fp.progress),
             )
 
     def _handle_wait_for_finish(self, packet_holder: PduHolder) -> None:
